@@ -45,12 +45,21 @@ Theorem C03_budget_raise_wakes : forall fuel nw w d b z,
   run_uop fuel nw w (UAdjust d z) = sched_pass nw 0 (updd w d (t_budget (Z.max (b + z) (d_produced (getd w d))))) d.
 Proof. exact budget_raise_wakes. Qed.
 
+(** a part that stays after a hand-over attempt is genuinely blocked at that moment: it was offered, longest idle first, to every
+    configured downstream neighbour and each of them refused *)
+Theorem C03_blocked_means_all_refused : forall fuel nw w d w' it,
+  handler_pass fuel nw w d = (w', false) -> d_out (getd w d) = Some it -> operational (getd w d) = true -> amem d (f_devs w) = true ->
+  exists w1, refused_all nw fuel it w (sorted_down fuel w d) w1 /\ w' = updd w1 d (t_waiting_ds true) /\
+             Permutation (sorted_down fuel w d) (d_down (getd w d)).
+Proof. exact handler_pass_genuinely_blocked. Qed.
+
 Print Assumptions C03_refused_sets_waiting.
 Print Assumptions C03_wakeup_schedules_attempt_now.
 Print Assumptions C03_restore_wakes.
 Print Assumptions C03_unblock_wakes.
 Print Assumptions C03_budget_raise_wakes.
 
+Print Assumptions C03_blocked_means_all_refused.
 Example C03_nonvacuous :
   let x := (blank_dev KHandler) <| d_waiting_ds := true |> in
   let w := mkFw [(1, x)] [] init_rs [] 1 [] [] 0 in
